@@ -14,9 +14,15 @@ type stream struct {
 	ns uint64
 }
 
+// NoSync (race-detection builds): no lock, state touched from //go:norace code only (one thread runs at a time).
+var NoSync bool
+
+//go:norace
 func (s *stream) Read(p []byte) (int, error) {
-	s.mu.Lock()
-	defer s.mu.Unlock()
+	if !NoSync {
+		s.mu.Lock()
+		defer s.mu.Unlock()
+	}
 	for i := 0; i < len(p); i += 16 {
 		s.n++
 		var b [16]byte
